@@ -136,6 +136,9 @@ func (s *Sim) sigAdd(kind string) {
 	copy(s.sig[:], h.Sum(nil))
 }
 
+// SigAdd lets a world add what distinguishes its runs to the schedule signature.
+func (s *Sim) SigAdd(x string) { s.sigAdd(x) }
+
 // EventHash identifies the observable history of the run.
 func (s *Sim) EventHash() string { return hex.EncodeToString(s.hash[:8]) }
 
@@ -267,7 +270,11 @@ func (s *Sim) Run(done func() bool) {
 			return
 		}
 		var cs []cand
-		ncs, next := s.Net.candidates(now)
+		var ncs []netCand
+		next := time.Duration(-1)
+		if s.Net != nil {
+			ncs, next = s.Net.candidates(now)
+		}
 		for _, nc := range ncs {
 			cs = append(cs, cand{key: nc.key, kind: nc.kind, nc: nc})
 		}
